@@ -4,8 +4,8 @@ as composed in Model/FileTypes.lean from the tag/container loads (Props/C04_<Par
 (Props/C05_<Fmt>.lean): on EVERY byte string it returns or raises a MutagenError.
 
 Covered without hypotheses: MP3, TrueAudio, the bare ID3FileType, FLAC, MP4, ASF, WavPack, Musepack, MonkeysAudio,
-OptimFROG, TAK, the bare APEv2File, AIFF, WAVE, DSF, DSDIFF, AAC, AC3, and the five Ogg classes.  SMF has no
-model.  `mutagen.File`: the class picked by the generated score model, then its load.
+OptimFROG, TAK, the bare APEv2File, AIFF, WAVE, DSF, DSDIFF, AAC, AC3, SMF, and the five Ogg classes.
+`mutagen.File`: the class picked by the generated score model, then its load.
 
 What is composed and what is not: see the report in Model/FileTypes.lean and the doc strings below.
 -/
@@ -34,6 +34,7 @@ import MutagenModel.Props.C05_Tak
 import MutagenModel.Props.C05_TrueAudio
 import MutagenModel.Props.C05_WavPack
 import MutagenModel.Props.C05_Wave
+import MutagenModel.Props.C05_Smf
 set_option linter.unusedVariables false
 namespace Mutagen.C04
 open Mutagen Mutagen.FileTypes
@@ -231,14 +232,18 @@ theorem ogg_slow_last_ends (f : Bytes) (serial : Nat) (best : Option Ogg.Page) :
     ∃ r, OggInj.slowLastP f serial (f.length + 1) 0 best = .ok r :=
   slowLastP_ok f serial _ 0 best (by omega)
 
+/-- `SMF(fileobj)`: the stream information only (the class has no tags) -/
+theorem smf_file_load_clean (f : Bytes) : ∀ e, loadSmf f = .error e → e = .mutagen :=
+  C05.smf_info_total f
+
 /-! ## `mutagen.File` -/
 
 open Mutagen.Generated in
-/-- every class among `File`'s options except SMF (no model) -/
-theorem kind_load_clean (k : Kind) (f : Bytes) (hk : k ≠ .SMF) :
+/-- every class among `File`'s options -/
+theorem kind_load_clean (k : Kind) (f : Bytes) :
     ∀ e, loadKind k f = .error e → e = .mutagen := by
   cases k <;> simp only [loadKind]
-  case SMF => exact absurd rfl hk
+  case SMF => exact Clean.map _ (smf_file_load_clean f)
   case MP3 => exact Clean.map _ (mp3_file_load_clean f)
   case TrueAudio => exact Clean.map _ (trueaudio_file_load_clean f)
   case OggTheora => exact Clean.map _ (oggtheora_file_load_clean f)
@@ -265,10 +270,8 @@ theorem kind_load_clean (k : Kind) (f : Bytes) (hk : k ≠ .SMF) :
 
 open Mutagen.Generated Mutagen.Detect in
 /-- `mutagen.File(fileobj)` with any name and any list of options: the scores of the first 128 bytes / the name /
-the last 160 bytes pick a class (or None), then that class's load runs — None, an object, or MutagenError,
-unless the class picked is SMF (not modelled) -/
+the last 160 bytes pick a class (or None), then that class's load runs — None, an object, or MutagenError -/
 theorem file_detect_then_load_clean (name : String) (opts : List Kind) (f : Bytes)
-    (hsmf : pick (fileAtoms name f) Kind.rank opts ≠ some .SMF)
     : ∀ e, fileLoad name opts f = .error e → e = .mutagen := by
   intro e h
   unfold fileLoad at h
@@ -277,7 +280,7 @@ theorem file_detect_then_load_clean (name : String) (opts : List Kind) (f : Byte
   · rename_i k hk
     split at h
     · rename_i e' he; cases h
-      exact kind_load_clean k f (fun hs => hsmf (by rw [hk, hs])) _ he
+      exact kind_load_clean k f _ he
     · cases h
 
 open Mutagen.Generated Mutagen.Detect in
@@ -311,7 +314,7 @@ theorem file_detect_picks_best (name : String) (opts : List Kind) (f : Bytes) (k
 
 /-- the hypotheses are satisfiable and the loads compute: an empty file is refused by every class with MutagenError
 (the two bare tag classes load it without tags; `File` returns None for it) -/
-example : (Detect.concreteKinds.filter fun k => k != .SMF).all (fun k => loadKind k [] == .error .mutagen) = true ∧
+example : Detect.concreteKinds.all (fun k => loadKind k [] == .error .mutagen) = true ∧
     loadKind .APEv2File [] = .ok () ∧ loadKind .ID3FileType [] = .ok () ∧
     fileLoad "" Generated.options [] = .ok none := by
   decide +kernel
